@@ -31,6 +31,8 @@ type History struct {
 	FilterShift bool `json:"filtershift,omitempty"`
 	// MetaAll: every sync is a metadata-only receive whose selector selects every path
 	MetaAll bool `json:"metaall,omitempty"`
+	// ViaLinks: both roots are handed over as symlinks to the directories
+	ViaLinks bool `json:"vialinks,omitempty"`
 }
 
 func (h History) String() string {
@@ -38,7 +40,7 @@ func (h History) String() string {
 	for _, st := range h.Steps {
 		s = append(s, describeEdits(st))
 	}
-	return fmt.Sprintf("base=%s; sync; %s; sync (differ=%d mem=%v filteruid=%v filtershift=%v metadata-only-all=%v)", h.Base, strings.Join(s, "; sync; "), h.Differ, h.Mem, h.FilterUID, h.FilterShift, h.MetaAll)
+	return fmt.Sprintf("base=%s; sync; %s; sync (differ=%d mem=%v filteruid=%v filtershift=%v metadata-only-all=%v roots-via-symlinks=%v)", h.Base, strings.Join(s, "; sync; "), h.Differ, h.Mem, h.FilterUID, h.FilterShift, h.MetaAll, h.ViaLinks)
 }
 
 // runHistory plays a history; it returns the observation of the last sync and the
@@ -85,7 +87,7 @@ func runHistory(h History, notify bool) (*SyncObs, fsmodel.Tree, string) {
 		}
 		return o, ""
 	}
-	if _, e := sync(SyncCase{Mem: h.Mem, FilterUID: h.FilterUID, FilterShift: h.FilterShift}); e != "" {
+	if _, e := sync(SyncCase{Mem: h.Mem, FilterUID: h.FilterUID, FilterShift: h.FilterShift, ViaLinks: h.ViaLinks}); e != "" {
 		return nil, nil, "initial sync: " + e
 	}
 	var last *SyncObs
@@ -97,7 +99,7 @@ func runHistory(h History, notify bool) (*SyncObs, fsmodel.Tree, string) {
 			}
 			cur = n
 		}
-		c := SyncCase{Mem: h.Mem, FilterUID: h.FilterUID, FilterShift: h.FilterShift}
+		c := SyncCase{Mem: h.Mem, FilterUID: h.FilterUID, FilterShift: h.FilterShift, ViaLinks: h.ViaLinks}
 		if i == len(h.Steps)-1 {
 			c.Differ, c.Notify = h.Differ, notify
 		}
@@ -276,6 +278,11 @@ func c02Histories(tier string) []History {
 		out = append(out, History{Base: base, Steps: [][]Edit{{}}, FilterShift: true})
 		for _, e := range edits {
 			out = append(out, History{Base: base, Steps: [][]Edit{{e}}, FilterShift: true})
+		}
+		// both roots reached through a symlink
+		out = append(out, History{Base: base, Steps: [][]Edit{{}}, ViaLinks: true})
+		for _, e := range edits {
+			out = append(out, History{Base: base, Steps: [][]Edit{{e}}, ViaLinks: true})
 		}
 		if tier != "thorough" {
 			continue
